@@ -388,10 +388,24 @@ def call(ip, name, args, kw):
             return ip.unaryop(ast.Invert, args[0]) if hasattr(ip, "unaryop") else ip.binop(ast.BitXor, args[0], True)
         return ip.binop(py[name], args[0], args[1])
     if name == "sort":
-        a = [S(x) for x in to_obj_array(args[0]).ravel()]
-        if to_obj_array(args[0]).ndim != 1 or not all(x.is_number and x.is_real for x in a):
-            raise OutsideFragment("np.sort of symbolic values / of a matrix")
-        return to_obj_array(sorted(a))
+        arr = to_obj_array(args[0])
+        a = [S(x) for x in arr.ravel()]
+        ax = kw.get("axis", args[1] if len(args) > 1 else -1)
+        if not all(x.is_number and x.is_real for x in a):
+            raise OutsideFragment("np.sort of symbolic values")
+        if arr.ndim == 1:
+            return to_obj_array(sorted(a))
+        if arr.ndim == 2 and ax is not None and is_static_int(ax):
+            axn = as_int(ax) % 2          # numpy's default: the LAST axis
+            out = arr.copy()
+            if axn == 1:
+                for r in range(arr.shape[0]):
+                    out[r, :] = sorted(S(x) for x in arr[r, :])
+            else:
+                for c in range(arr.shape[1]):
+                    out[:, c] = sorted(S(x) for x in arr[:, c])
+            return out
+        raise OutsideFragment("np.sort of an array with more than two dimensions / flattened sort")
     if name == "unique":
         a = [S(x) for x in to_obj_array(args[0]).ravel()]
         if not all(x.is_number and x.is_real for x in a):
